@@ -150,6 +150,17 @@ func runC07(c *Ctx, r *Report) {
 				r.OkWhy("C07.R1", ssaFuncName(fn), "panic: "+msg, c.Pos(p.Pos()), why)
 				return
 			}
+			// the same panic (same message) moved to another function of the same package: the invariant that
+			// makes it unreachable is about the message's condition, not about where the code sits
+			if fn.Pkg != nil {
+				pk := shortPkg(fn.Pkg.Pkg) + "."
+				for k, why := range panicTable {
+					if i := strings.Index(k, " | "); i > 0 && strings.HasPrefix(k, pk) && k[i+3:] == msg && msg != "" {
+						r.OkWhy("C07.R1", ssaFuncName(fn), "panic: "+msg, c.Pos(p.Pos()), why+" (listed for "+k[:i]+")")
+						return
+					}
+				}
+			}
 			r.Fail("C07.R1", ssaFuncName(fn), "panic: "+msg, c.Pos(p.Pos()), "an explicit panic is reachable from program text and is neither a documented resource guard nor listed with an invariant that makes it unreachable")
 		})
 	}
